@@ -18,7 +18,81 @@ use crate::rng::TestRng;
 use crate::{scn, Scenario};
 
 pub fn scenarios() -> Vec<Scenario> {
-    vec![scn!(scenario_refresh_dealer), scn!(scenario_refresh_dkg)]
+    vec![
+        scn!(scenario_refresh_dealer, 2),
+        scn!(scenario_refresh_dkg, 2),
+        crate::wrap::scn_refresh(1),
+    ]
+}
+
+/// Finding probes (see README "Finding probes"): run once per run, report, never fail.
+pub fn probes() -> Vec<Scenario> {
+    // the five default-world suites (the Taproot suite is not part of this finding)
+    let mut s = scn!(probe_mixed_refresh_set_cancels);
+    s.runs[5] = None;
+    vec![s]
+}
+
+/// KNOWN literal deviation from the text of C10 ("any signer set mixing pre-refresh and post-refresh shares ...
+/// fails"): 2-of-4 dealer group with the identifiers {130,132,133,135}, dealer refresh, one signing session of
+/// all four with OLD shares at {130,135} and NEW shares at {132,133}.  The refreshing polynomial is a*x; the
+/// Lagrange-weighted refresh terms of the new-share holders, a * (l_132 * 132 + l_133 * 133), cancel for this
+/// symmetric set, so the aggregate is a valid signature under the (unchanged) group key.  The scenarios'
+/// oracle is restricted accordingly (README, "Oracle restrictions"); this probe only reports the fact.
+pub fn probe_mixed_refresh_set_cancels<C: Suite>(rng: &mut TestRng, _p: &Params, notes: &mut Notes) -> Verdict {
+    const IDS: [u16; 4] = [130, 132, 133, 135];
+    const OLD: [u16; 2] = [130, 135];
+    let ids: Vec<Id<C>> = IDS.iter().map(|i| need(Id::<C>::try_from(*i), "Identifier::try_from(u16)")).collect::<Result<_, _>>()?;
+    let (shares, pubkeys) = need(
+        keys::generate_with_dealer::<C, _>(4, 2, IdentifierList::Custom(&ids), &mut *rng),
+        "generate_with_dealer(4, 2, {130,132,133,135})",
+    )?;
+    let mut old_kps = BTreeMap::new();
+    for (id, s) in &shares {
+        old_kps.insert(*id, need(KeyPackage::<C>::try_from(s.clone()), "KeyPackage::try_from")?);
+    }
+    let (refreshing, new_pkp) = need(
+        refresh::compute_refreshing_shares::<C, _>(pubkeys.clone(), &ids, &mut *rng),
+        "compute_refreshing_shares",
+    )?;
+    let mut mixed: BTreeMap<Id<C>, KeyPackage<C>> = BTreeMap::new();
+    for share in refreshing {
+        let id = *share.identifier();
+        let old = match old_kps.get(&id) {
+            Some(k) => k,
+            None => return skip("internal: refreshing share for an unknown participant"),
+        };
+        let is_old = ids.iter().zip(IDS).any(|(i, n)| *i == id && OLD.contains(&n));
+        let kp = if is_old {
+            old.clone()
+        } else {
+            need(refresh::refresh_share::<C>(share, old), "refresh_share")?
+        };
+        mixed.insert(id, kp);
+    }
+    let message = b"finding probe: mixed-refresh-set-cancels";
+    let sess = need(run_session::<C>(rng, &mixed, &ids, message, false), "signing session of all four participants")?;
+    let mut valid_with: Vec<&str> = Vec::new();
+    for (which, pkp) in [("refreshed", &new_pkp), ("pre-refresh", &pubkeys)] {
+        if let Ok(sig) = fc::aggregate::<C>(&sess.package, &sess.shares, pkp) {
+            if pubkeys.verifying_key().verify(message, &sig).is_ok() {
+                valid_with.push(which);
+            }
+        }
+    }
+    notes.insert("aggregate_ok_and_valid_with_public_key_package".into(), json!(valid_with));
+    if valid_with.is_empty() {
+        return Ok(());
+    }
+    finding(
+        "mixed-refresh-set-cancels",
+        format!(
+            "2-of-4 dealer group, identifiers {{130,132,133,135}}, dealer refresh; one signing session of all four with OLD (pre-refresh) \
+             shares at {{130,135}} and NEW (refreshed) shares at {{132,133}}: aggregate returns Ok and the signature verifies under the \
+             group key ({} public key package): Lagrange-weighted refresh terms cancel",
+            valid_with.join(" and ")
+        ),
+    )
 }
 
 /// The participants that stay (in the order handed to the library) and those removed.
